@@ -68,3 +68,78 @@ Proof.
   cbn [effg pf_item] in Hin. rewrite Hf in Hin. exact Hin.
 Qed.
 Print Assumptions C19_first_token_sound.
+
+(* The closedness premise, as a theorem about the calculator (end of the third session).  For every grammar in which no
+   rule reaches itself at one position -- [acyclic_b]: a rank, given as a table and checked, strictly decreases along the
+   initial invocations computed with the per-item flags of the analysis; this is the class "without left recursion" of the
+   property -- the table the model of FirstSetCalculator computes IS closed under the FIRST equations.  (Proofs/FirstClosed.v:
+   entries are never overwritten; a value returned for an item equals the pure value under every table that agrees with the
+   entries stored so far; the recursion guard is never hit because the rules in progress have a larger rank than anything
+   visited at an initial position.  Uses C03_item_flags_are_exact for the flags and, for "an item whose FIRST set holds the
+   empty marker can match nothing", the conditions [nul_tbl_ok] on the extracted table.) *)
+From Pegen Require Import Proofs.VisitAll Proofs.FirstClosed Proofs.FirstClosedInst Analysis.FirstSets.
+Theorem C19_computed_table_is_closed :
+  forall methods iter_fields rs st T ranks,
+  monotone_tbl methods = true -> visit_all_ok methods iter_fields = true -> nul_tbl_ok methods = true ->
+  NoDup (map rname rs) -> ids_consistent rs -> ne_rules rs = true ->
+  compute_nullables methods iter_fields rs = Some st ->
+  acyclic_b rs (fun k => memN k (n_items st)) ranks = true ->
+  first_sets methods iter_fields rs = Some T ->
+  closed_b rs (table_fun T) (pv_item methods (pleaf rs (flags_of st))) = true.
+Proof. exact first_sets_closed. Qed.
+Print Assumptions C19_computed_table_is_closed.
+
+(* Hence FIRST, as computed, is sound for every grammar of the class and every input: *)
+Theorem C19_computed_first_sets_are_sound :
+  forall methods iter_fields rs st T ranks,
+  monotone_tbl methods = true -> visit_all_ok methods iter_fields = true -> nul_tbl_ok methods = true ->
+  NoDup (map rname rs) -> ids_consistent rs -> ne_rules rs = true -> lk_rules rs = true ->
+  compute_nullables methods iter_fields rs = Some st ->
+  acyclic_b rs (fun k => memN k (n_items st)) ranks = true ->
+  first_sets methods iter_fields rs = Some T ->
+  forall K toks kw soft aeval item_name forced_msg n r p v p',
+  find_rule rs n = Some r ->
+  peg_item K rs toks kw soft aeval item_name forced_msg (NameLeaf n) p (PSucc v p') -> p < p' ->
+  exists t m, nth_error toks p = Some t /\ In m (table_fun T n) /\ describes K kw soft m t.
+Proof.
+  intros m itf rs st T ranks Hm Hv Hok Hn Hids Hne Hlk Hc Hac Hfs.
+  exact (C19_first_token_sound m itf rs st Hok Hm Hn Hids Hc (table_fun T)
+           (first_sets_closed m itf rs st T ranks Hm Hv Hok Hn Hids Hne Hc Hac Hfs) Hlk).
+Qed.
+Print Assumptions C19_computed_first_sets_are_sound.
+
+(* Non-vacuity: the decidable premises hold for a grammar with a nullable prefix, a loop, a gather and a lookahead, with the
+   table as extracted from the source; the computed table is the expected one. *)
+Definition tbl19 : list (string * bexp) :=
+  [("visit_Rule", BSpecial "visit_Rule"); ("visit_Rhs", BAnyEager "alts"); ("visit_Alt", BAllEager "items");
+   ("visit_Forced", BSeq (BVisit "node") (BConst true)); ("visit_PositiveLookahead", BSeq (BVisit "node") (BConst true));
+   ("visit_NegativeLookahead", BSeq (BVisit "node") (BConst true)); ("visit_Opt", BSeq (BVisit "node") (BConst true));
+   ("visit_Repeat0", BSeq (BVisit "node") (BConst true)); ("visit_Repeat1", BVisit "node");
+   ("visit_Gather", BSeq (BVisit "separator") (BVisit "node")); ("visit_Cut", BConst true);
+   ("visit_Group", BVisit "rhs"); ("visit_NamedItem", BSpecial "visit_NamedItem");
+   ("visit_NameLeaf", BSpecial "visit_NameLeaf"); ("visit_StringLeaf", BNotField "value")].
+Definition itf19 : list (string * list string) :=
+  [("Rule", ["rhs"]); ("Rhs", ["alts"]); ("Alt", ["items"]); ("NamedItem", ["item"]); ("NameLeaf", []);
+   ("StringLeaf", []); ("Group", ["rhs"]); ("Opt", ["node"]); ("Repeat0", ["node"]); ("Repeat1", ["node"]);
+   ("Gather", ["separator"; "node"]); ("PositiveLookahead", ["node"]); ("NegativeLookahead", ["node"]);
+   ("Forced", ["node"]); ("Cut", [])].
+Definition ni19 (k : N) (i : item) := NItem k None None i.
+Definition mkr19 (n : string) (id : N) (alts : list alt) := {| rname := n; rtype := None; rmemo := false; rrhs := Rhs id alts |}.
+(* start: a NEWLINE ;  a: !'z' opt ('w' b)* ','.b+ ;  b: 'q'? NAME ;  opt: 'o'? *)
+Definition g19 : list rule :=
+  [mkr19 "start" 1 [Alt [ni19 2 (NameLeaf "a"); ni19 3 (NameLeaf "NEWLINE")] None];
+   mkr19 "a" 4 [Alt [ni19 5 (NegLook (StringLeaf "'z'")); ni19 7 (NameLeaf "opt");
+                     ni19 8 (Repeat0 9 (Group (Rhs 10 [Alt [ni19 11 (StringLeaf "'w'"); ni19 12 (NameLeaf "b")] None])));
+                     ni19 13 (Gather 14 (StringLeaf "','") (NameLeaf "b"))] None];
+   mkr19 "b" 15 [Alt [ni19 16 (Opt (StringLeaf "'q'")); ni19 17 (NameLeaf "NAME")] None];
+   mkr19 "opt" 18 [Alt [ni19 19 (Opt (StringLeaf "'o'"))] None]].
+Example C19_closed_example :
+  visit_all_ok tbl19 itf19 = true /\ nul_tbl_ok tbl19 = true /\ monotone_tbl tbl19 = true /\ ne_rules g19 = true /\ lk_rules g19 = true /\
+  match compute_nullables tbl19 itf19 g19 with
+  | Some st => acyclic_b g19 (fun k => memN k (n_items st)) [("start", 3); ("a", 2); ("b", 1); ("opt", 0)]
+  | None => false
+  end = true /\
+  option_map (fun T => (table_fun T "a", table_fun T "b", table_fun T "opt")) (first_sets tbl19 itf19 g19) =
+    Some (["'o'"; "'w'"; "'q'"; "NAME"], ["'q'"; "NAME"], ["'o'"; ""]).
+Proof. vm_compute. repeat split; reflexivity. Qed.
+Print Assumptions C19_closed_example.
